@@ -7,7 +7,7 @@ property's own), and undo it."""
 import json, os, shutil, subprocess, sys, time
 
 prop, var = sys.argv[1], sys.argv[2]
-prop_id = prop[2:] if prop[:2] in ("W2", "W3", "W4", "W5", "W6") else prop      # later waves of seeded changes: W2Cxx, W3Cxx
+prop_id = prop[2:] if prop[:2] in ("W2", "W3", "W4", "W5", "W6", "W7") else prop      # later waves of seeded changes: W2Cxx, W3Cxx
 props = [prop_id]
 verify = True
 for i, a in enumerate(sys.argv[3:]):
